@@ -5,11 +5,41 @@ Proof      : coq/Props/C07.v over Model/GC.v: for EVERY fault oracle (any number
              old files; every damage class of a reachable list / manifest aborts; markers whose stat / delete fails
              keep protecting.  normalize_path, the marker fallback and the constants are regenerated from the source
              (Gen/GenNorm.v); the try/except skeleton of collect & co. is pinned by translator/gen_norm.py.
+Markers    : the per-marker decision kernel of _load_inflight_protection is REGENERATED (translator/gen_gcmarker.py ->
+             Gen/GenGCMarker.v: age_ok as a function of the stat's answer, None = it raised; is the marker deleted; are its
+             targets protected; the translator refuses a loader whose markers are not the result of storage.list_files itself,
+             whose handlers are narrower than Exception, or that calls another storage operation).  C07_marker_loop_regenerated:
+             Model/GC.v's markers_loop IS the loop built from that kernel; C07_marker_stat_failure_protects /
+             C07_marker_kernel_fail_closed: a marker whose stat raises is fresh, not deleted, protects -- the only way a listed
+             marker does not protect is a stat that ANSWERED older than the cutoff plus a successful delete;
+             C07_marker_stat_fault_keeps_protection: for every fault oracle, a faulted stat of a listed marker leaves the store
+             as it was and the marker's targets in the protected set the loop returns.
 Tie        : correspondence `gc_faults`: tables with 1-4 retained snapshots (shared manifests, rewritten manifest,
              orphans, a live transaction, a commit in progress, an abandoned marker); a fault is injected at EVERY
-             storage call of the collection x {OSError, FileNotFoundError, non-OSError exception, unusable result
-             (exists->False, garbage bytes, listing + "../x")} by wrapping the storage object; the same fault plan
-             drives the model; compared: abort phase / completion, exact deleted set, keep sets, call trace.
+             storage operation of the collection x EVERY exception class a backend raises for it {OSError EIO,
+             FileNotFoundError / 404 for an object that IS there (listed, then unsearchable / not yet visible / vanished),
+             PermissionError, TimeoutError, a non-OSError SDK exception, the local backend's ValueError} + an unusable result
+             (exists->False, garbage bytes, listing + "../x").  The backend OBJECT is instrumented (gcsim.TracingStorage: a
+             subclass of the backend's own class with list_files / get_modified_time / read_file / open_file / exists /
+             delete_file / read_json overridden), not wrapped: a helper method of the backend that is composed from these
+             operations (a default implementation in StorageBackend, a convenience added later) has its constituent
+             operations recorded and faulted like the collector's own calls.  A sixth table runs on a THIRD-PARTY backend
+             (gcsim.minimal_backend: a StorageBackend subclass implementing only the abstract methods, every helper being
+             the base class's default).  The same fault plan drives the model; compared: abort phase / completion, exact
+             deleted set, keep sets, call trace.
+OS level   : BELOW the interface (OS_KINDS, gcsim.os_failing): while ONE operation of the collection runs, the operating system
+             refuses the object it is about -- os.stat / os.lstat, os.scandir / os.listdir or open failing with EACCES / ESTALE /
+             EIO for that path only (a directory that can be listed but not searched, a stale handle, a failing disk) -- at every
+             exists / stat / read / open / listing call.  Oracle only: the collection raises, or its keep sets hold every
+             reachable and live file and none of them is deleted.  (Finding on the unchanged library:
+             findings/C07-failed-listing-reads-empty-unchanged-tree.log -- LocalStorageBackend.list_files answered [] for a
+             marker directory it could not look at and the sweep removed the files of live transactions.)
+             The two places where list_files can swallow an OS failure (the guard in front of the walk, os.walk's onerror) are
+             REGENERATED (translator/gen_locallist.py -> Gen/GenLocalList.v) as predicates over the failure's class;
+             Model/LocalList.v local_list_outcome; C07_local_listing_fails_closed (a listing that returns although something could
+             not be looked at comes only from 'not there' failures), C07_marker_listing_raise_aborts (a raising marker listing
+             aborts, store unchanged, for every oracle); correspondence `local_listing`: the real list_files under a failing
+             stat / scandir of the prefix and of a directory below it x {EACCES, EIO, ESTALE, ENOENT, ENOTDIR} vs the model.
              `gc_damage`: every damage class {missing, garbage, empty, cut inside the Avro block, cut in the header}
              on every reachable list / manifest, plus BYTE-LEVEL damage anywhere in the file -- single-byte flips and
              truncations over the header, the block framing, EVERY record and every sync marker (quick: spread + structural
@@ -76,7 +106,9 @@ THEOREMS = ["C07_fail_closed", "C07_damage", "C07_transient", "C07_partial_decod
             "C07_pointer_unreadable_never_used", "C07_marker_keep", "C07_registered_marker_fallback_covers",
             "C07_metadata_document_fail_closed", "C07_lost_section_refused", "C07_dangling_current_refused", "C07_run_protects_current_snapshot",
             "C07_json_section_lost_aborts", "C07_readable_records_complete", "C07_structured_damage_aborts",
-            "C07_list_record_without_path_refused"]
+            "C07_list_record_without_path_refused",
+            "C07_marker_stat_failure_protects", "C07_marker_kernel_fail_closed", "C07_marker_loop_regenerated",
+            "C07_marker_stat_fault_keeps_protection", "C07_local_listing_fails_closed", "C07_marker_listing_raise_aborts"]
 REQ = gcsim.REQ
 TIMEOUT_MS = h5.TIMEOUT_MS
 
@@ -106,7 +138,19 @@ MANIFEST_ENTRY = {
                   "C07_pointer_raise_aborts, C07_pointer_unreadable_never_used, C07_pointer_lost_hint_partial; the model's "
                   "fault handling is tied to the code by injecting a fault at every storage call of real collections (4 fault kinds; thorough: "
                   "pairs; pointer plane: every call of both resolutions incl. read_json of the metadata file, compared on the FILE worked "
-                  "from) and every damage class on every reachable metadata-plane file, comparing abort phase, deleted set and call trace",
+                  "from) and every damage class on every reachable metadata-plane file, comparing abort phase, deleted set and call trace; "
+                  "C07_marker_stat_failure_protects / C07_marker_kernel_fail_closed / C07_marker_loop_regenerated / "
+                  "C07_marker_stat_fault_keeps_protection (the per-marker decision kernel of _load_inflight_protection REGENERATED "
+                  "from the source, Gen/GenGCMarker.v: a marker whose stat raises -- any exception class -- counts as fresh, is not "
+                  "deleted and protects; the only way a listed marker does not protect is a stat that answered older than the cutoff "
+                  "plus a successful delete; the model's marker loop is the loop built from that kernel; for every fault oracle a "
+                  "faulted stat leaves the store unchanged and the marker's targets protected); faults are injected at the backend's "
+                  "OWN operations (instrumented subclass: helper methods of the backend composed from them are exercised) with every "
+                  "exception class per operation (EIO, 404 for a listed object, EACCES, timeout, SDK error, ValueError), on the local "
+                  "backend and on a third-party backend implementing only the abstract interface; C07_local_listing_fails_closed / "
+                  "C07_marker_listing_raise_aborts (which OS failures LocalStorageBackend.list_files turns into 'no files', REGENERATED "
+                  "from its guard and its os.walk onerror handler, Gen/GenLocalList.v: only 'not there' failures; any other propagates, "
+                  "and a raising marker listing aborts the collection with the store unchanged), tied by `local_listing`",
     "level_note": "C07_pointer_run_safe_partial carries the hypothesis `a_hint a2 <> PNone`; the statement without it "
                   "(C07_pointer_run_safe_full) is REFUTED in Coq (C07_pointer_run_safe_refuted): a pointer that looks absent at both "
                   "reads with a dead writer's unpublished higher version on storage makes the scan result the table and files the "
@@ -128,19 +172,41 @@ MANIFEST_ENTRY = {
                   "is skipped by collect()): recorded, not judged -- unless the metadata document contradicts itself afterwards "
                   "(dangling current_snapshot_id: judged); byte damage that still "
                   "decodes to DIFFERENT records (e.g. a flipped path character) is undetectable without checksums: recorded, not judged, "
-                  "not compared; a short read ending exactly on an Avro block boundary likewise; a stale hint naming an older "
+                  "not compared; a short read ending exactly on an Avro block boundary likewise; failures BELOW the backend "
+                  "interface (while one operation of the collection runs, os.stat / os.scandir / open fail for the object it is about with "
+                  "EACCES / ESTALE / EIO: what LocalStorageBackend makes of that -- an exception, 'not a file', an empty listing -- is the "
+                  "backend's own code) are injected at every call and judged by the oracle only (raise, or every reachable / live file in "
+                  "the keep sets), not modelled and not injected for delete_file; a stale hint naming an older "
                   "existing version is C10's finding and only recorded; an abort raised by a sweep's own listing may follow deletions of "
-                  "true orphans (the property's second disjunct) -- stated and proved as such; local backend only",
-    "technique": "Coq proof for all fault oracles and all documents + reader shapes / collector checks regenerated by the translator + "
-                 "exhaustive single-fault injection at every storage call and structured damage at every key path of every "
-                 "metadata-plane document (differential)",
+                  "true orphans (the property's second disjunct) -- stated and proved as such; local backend and a third-party backend "
+                  "over the same directory (S3: C09's harness)",
+    "technique": "Coq proof for all fault oracles and all documents + reader shapes / collector checks / marker decision kernel regenerated "
+                 "by the translator + exhaustive single-fault injection at every storage operation (every exception class; at the "
+                 "backend's own operations, on the local and a third-party backend; OS-level refusals below the interface) and structured "
+                 "damage at every key path of every metadata-plane document (differential)",
     "design_ref": "DESIGN.md section 5 C07",
 }
 
-KINDS = {"E": ["raise", "raisex", "bad"], "O": ["raise", "missing", "raisex", "bad"], "R": ["raise", "missing", "raisex", "bad"],
-         "L": ["raise", "raisex", "bad"], "S": ["raise", "missing", "raisex"], "D": ["raise", "raisex"],
+# every exception class a backend raises for the operation (gcsim.raise_fault): EIO, 404 / ENOENT for an object that IS there
+# (listed and then unsearchable / not yet visible / vanished), EACCES, timeout, an SDK error outside OSError, the local
+# backend's own ValueError; "bad" = an unusable result
+KINDS = {"E": ["raise", "raisex", "bad", "perm", "value"], "O": ["raise", "missing", "raisex", "bad", "perm", "timeout", "value"],
+         "R": ["raise", "missing", "raisex", "bad", "perm", "timeout", "value"],
+         "L": ["raise", "raisex", "bad", "missing", "perm", "timeout", "value"], "S": ["raise", "missing", "raisex", "perm", "timeout", "value"],
+         "D": ["raise", "raisex", "missing", "perm"],
          "J": ["raise", "missing", "raisex", "bad"]}       # J = read_json of a metadata file (pointer plane only)
+# BELOW the interface (local backend and backends delegating to it): while ONE operation of the collection runs, the
+# operating system refuses the object it is about (gcsim.os_failing).  What the backend makes of that -- an exception, "not a
+# file", an empty listing -- is the backend's own code, so these runs are judged by the oracle only (no model).  Not injected
+# for delete_file: "cannot be deleted" is not among the property's conditions.
+OS_KINDS = {"E": ["os:stat:EACCES", "os:stat:ESTALE"], "S": ["os:stat:EACCES", "os:stat:ESTALE"],
+            "R": ["os:stat:EACCES", "os:open:EIO"], "O": ["os:stat:EACCES", "os:open:EIO"],
+            "L": ["os:stat:EACCES", "os:scandir:EACCES", "os:scandir:EIO"]}
 DAMAGES = ["missing", "garbage", "empty", "cut-block", "cut-header", "json-empty"]
+
+
+def gcsim_op_name(code: str) -> str:
+    return {v: k for k, v in gcsim.OPS.items()}[code]
 
 
 def role_of(key: str, reach_lists: set, reach_mans: set) -> str:
@@ -417,7 +483,7 @@ def run_table(spec: Dict[str, Any]) -> Dict[str, Any]:
                         if not isinstance(damage[1], dict):      # structured damage: the document goes to Model/Doc.v, not the store
                             store = gcsim.store_term(dst)
                     before = gcsim.list_tree(dst)
-                    real = gcsim.run_collect(t, grace, now, plan)
+                    real = gcsim.run_collect(t, grace, now, plan, backend=spec.get("backend"))
                 after = gcsim.list_tree(dst)
                 viol = judge(grace, now, reach, live, markers0, before, after, real, pos, what)
             except (gcsim.CaseTimeout, MemoryError) as e:
@@ -466,6 +532,21 @@ def run_table(spec: Dict[str, Any]) -> Dict[str, Any]:
                 r = one([{"op": op, "key": key, "occ": o, "kind": kind}], None, pos, what, desc)
                 out["runs"].append(r)
                 out["stats"]["fault_runs"] += 1
+            for kind in OS_KINDS.get(op, []):
+                what = f"{kind}@{op}:{role_of(key, reach_lists, reach_mans)}"
+                desc = {"type": "fault", "what": what}
+                if not wanted(desc):
+                    continue
+                r = one([{"op": op, "key": key, "occ": o, "kind": kind}], None, pos, what, desc)
+                r["os_level"] = True
+                if not r["real"]["raised"] and not protection_kept(r["real"], reach, live):
+                    gone = sorted((set(r["before"]) - set(r["after"])) & (reach | live))
+                    r["violations"].append({"key": f"os-failure-ignored:{what}", "desc": desc,
+                                            "what": f"{what}: while {gcsim_op_name(op)}({key}) ran, the operating system refused the object "
+                                                    f"({kind.split(':')[2]} on {kind.split(':')[1]}); the collection completed with reachable / live "
+                                                    f"files missing from its keep sets, deleting {gone[:4]}"})
+                out["runs"].append(r)
+                out["stats"]["os_fault_runs"] = out["stats"].get("os_fault_runs", 0) + 1
         # ---- double faults (thorough)
         for _ in range(spec.get("pairs", 0) if only is None else 0):
             i, j = sorted(rng.sample(range(len(T)), 2))
@@ -482,7 +563,7 @@ def run_table(spec: Dict[str, Any]) -> Dict[str, Any]:
             out["stats"]["fault_runs"] += 1
         # ---- the stream of a reachable list / manifest misbehaves PART-WAY (connection reset, short read): what that amounts to
         #      is decided by decoding the same faulty stream independently (fastavro only)
-        avro_targets = [] if spec.get("legacy_json") else targets        # byte positions / "still parses" are decided by an Avro decode
+        avro_targets = [] if spec.get("legacy_json") or spec.get("faults_only") else targets        # byte positions / "still parses" are decided by an Avro decode
         for role, ordinal, key in avro_targets:
             bs = open(os.path.join(root, key), "rb").read()
             orig = gcsim.avro_probe(gcsim.as_file(bs))
@@ -638,7 +719,7 @@ def run_table(spec: Dict[str, Any]) -> Dict[str, Any]:
                                                 f"files missing from its keep sets, deleting {gone[:4]} ({len(gone)} reachable / live file(s) in all)"})
             out["runs"].append(r)
 
-        if not (only is not None and only.get("type") not in (None, "doc")):
+        if not (only is not None and only.get("type") not in (None, "doc")) and not spec.get("faults_only"):
             meta_doc = json.loads(open(os.path.join(root, cur_meta)).read())
             # quick: every operation on the paths reachability flows through on every table; the other paths of the (same) metadata
             # format are covered completely on the tables with 1 and 2 snapshots and by a seeded third of them on the larger ones
@@ -844,7 +925,7 @@ def refresh_faults(spec: Dict[str, Any]) -> Dict[str, Any]:
         probe = os.path.join(base, "probe", "tbl")
         os.makedirs(os.path.dirname(probe))
         gcsim.copy_table(root, probe)
-        pre = gcsim.run_collect(load_table(probe), spec["grace"], now)["pre_trace"]   # refresh() + the hint check
+        pre = gcsim.run_collect(load_table(probe), spec["grace"], now, backend=spec.get("backend"))["pre_trace"]   # refresh() + the hint check
         hint = open(os.path.join(root, gcsim.HINT_KEY)).read().strip()
         out["published"] = f"v{hint}.metadata.json" if hint.isdigit() else hint
         # the metadata files on storage in the order the backend lists them (the scan keeps the first among equals)
@@ -876,7 +957,7 @@ def refresh_faults(spec: Dict[str, Any]) -> Dict[str, Any]:
                 try:
                     with gcsim.bounded(30):
                         t2 = load_table(dst)
-                        real = gcsim.run_collect(t2, spec["grace"], now, [{"op": op, "key": key, "occ": o_sel, "kind": kind}])
+                        real = gcsim.run_collect(t2, spec["grace"], now, [{"op": op, "key": key, "occ": o_sel, "kind": kind}], backend=spec.get("backend"))
                 except (gcsim.CaseTimeout, MemoryError) as e:
                     out["violations"].append({"key": f"hang:{what}", "what": f"{what}: the collection did not finish ({type(e).__name__})", "desc": {"what": what}})
                     continue
@@ -912,6 +993,10 @@ def make_specs(ctx) -> List[Dict[str, Any]]:
         {"snaps": 4, "rewrite": True, "expire": True, "multi_append": 2, "multiblock": True, "dead_writer": "expire"},
         # every reachable list / manifest in the legacy JSON format (JSON fallback of the readers)
         {"snaps": 2, "rewrite": True, "expire": False, "multi_append": 2, "legacy_json": True},
+        # the collection runs on a third-party backend: a StorageBackend subclass implementing only the abstract methods, so
+        # every helper with a default implementation in the base class is the default, composed from the primitives (faults_only:
+        # byte / stream / structured damage of documents is a matter of the decoders, not of the backend: not repeated here)
+        {"snaps": 2, "rewrite": False, "expire": True, "legacy_marker": True, "backend": "thirdparty", "faults_only": True},
     ]
     graces = [0] if quick else [0, 3600000]
     for vi, v in enumerate(variants):
@@ -1099,7 +1184,7 @@ def run_campaign(ctx) -> None:
         agg["fault_runs"] += res["stats"]["fault_runs"]
         agg["damage_runs"] += res["stats"]["damage_runs"]
         for k2 in ("byte_damage_runs", "stream_fault_runs", "still_parses_not_judged", "stream_faults_undetectable_short_read", "timeouts",
-                   "doc_damage_runs", "doc_emptied_in_place_not_judged", "doc_emptied_in_place_deleted_reachable",
+                   "os_fault_runs", "doc_damage_runs", "doc_emptied_in_place_not_judged", "doc_emptied_in_place_deleted_reachable",
                    "doc_dangling_current_judged"):
             agg[k2] = agg.get(k2, 0) + res["stats"].get(k2, 0)
         agg.setdefault("records_per_list", []).append(res.get("shape", {}).get("lists"))
@@ -1114,6 +1199,8 @@ def run_campaign(ctx) -> None:
         for run in res["runs"]:
             if run.get("doc"):
                 ctx.count(1, ("doc", len(recs), run["what"], repr(run["doc"]["op"])))
+            elif run.get("os_level"):
+                ctx.count(1, ("os", len(recs), run["what"], repr(run["plan"])))
         m = res["model"]
         stage1.append(gcsim.gc_expr(m["tp"], m["grace"], m["now_ms"], TIMEOUT_MS, [], m["snaps"], f"base{len(recs)}"))
         recs.append((spec, res))
@@ -1136,7 +1223,7 @@ def run_campaign(ctx) -> None:
     pending = []   # (rec index, run, mapped faults so far, remaining plan)
     for ri, (spec, res) in enumerate(recs):
         for run in res["runs"]:
-            if run["damage"] is not None:
+            if run["damage"] is not None or run.get("os_level"):
                 continue
             pending.append([ri, run, [], list(run["plan"]), clean_models[ri]])
     done: List[Tuple[int, Dict[str, Any], Dict[str, Any]]] = []
@@ -1216,18 +1303,100 @@ def run_campaign(ctx) -> None:
                                    "model_outcome_code": model["out"], "deleted": sorted(model["deleted"])}})
 
 
+# ------------------------------------------------------------------------------------------ the local backend's listing under OS failures
+LISTING_ERRNOS = ["EACCES", "EIO", "ESTALE", "ENOENT", "ENOTDIR"]
+ABSENT_ERRNOS = ("ENOENT", "ENOTDIR")
+
+
+def listing_cases() -> List[Dict[str, Any]]:
+    """Where the operating system fails while LocalStorageBackend.list_files(prefix) runs: looking at the prefix itself (stat),
+    scanning the prefix directory, scanning a directory below it -- with every errno class."""
+    out = []
+    for err in LISTING_ERRNOS:
+        out.append({"fn": "stat", "at": "prefix", "errno": err})
+        out.append({"fn": "scandir", "at": "prefix", "errno": err})
+        out.append({"fn": "scandir", "at": "sub", "errno": err})
+    return out
+
+
+def listing_case(base: str, case: Dict[str, Any]) -> Dict[str, Any]:
+    from datashard.storage_backend import LocalStorageBackend
+    root = os.path.join(base, "tbl")
+    shutil.rmtree(base, ignore_errors=True)
+    for rel in ("pre/a.inflight", "pre/b.inflight", "pre/sub/c.inflight", "pre/sub/deep/d.inflight", "other/e"):
+        h5._plant(root, rel, b"x")
+    be = LocalStorageBackend(root)
+    truth = sorted(p.replace(os.sep, "/") for p in be.list_files("pre"))
+    target = os.path.join(root, "pre" if case["at"] == "prefix" else "pre/sub")
+    try:
+        with gcsim.os_failing(case["fn"], case["errno"], target):
+            got = sorted(p.replace(os.sep, "/") for p in be.list_files("pre"))
+        outcome = 0 if got == truth else 1
+        detail = f"returned {got} (true listing: {truth})"
+    except Exception as e:  # noqa: BLE001
+        outcome, detail = 2, f"raised {type(e).__name__}: {e}"[:200]
+    shutil.rmtree(base, ignore_errors=True)
+    return {"outcome": outcome, "detail": detail, "truth": truth}
+
+
+def listing_expr(case: Dict[str, Any]) -> str:
+    absent = "true" if case["errno"] in ABSENT_ERRNOS else "false"
+    # a failing stat of the prefix is the probe; a directory that cannot be scanned (the prefix's own or one below) is the walk
+    args = f"(Some {absent}) None" if case["fn"] == "stat" else f"None (Some {absent})"
+    return f"match local_list_outcome {args} with LComplete => 0%nat | LShort => 1%nat | LRaise => 2%nat end"
+
+
+def run_listing(ctx, only: Optional[Dict[str, Any]] = None) -> List[Dict[str, Any]]:
+    """Oracle: a failure that does not mean 'not there' must not read as a complete-looking (short / empty) listing.
+    Correspondence `local_listing`: outcome {complete, short, raise} of the real list_files vs Model/LocalList.v."""
+    cases = [c for c in listing_cases() if only is None or c == only]
+    hits = []
+    res = []
+    for c in cases:
+        r = listing_case(os.path.join(ctx.scratch, "listing"), c)
+        res.append(r)
+        if r["outcome"] == 1 and c["errno"] not in ABSENT_ERRNOS:
+            what = (f"LocalStorageBackend.list_files('pre') while {c['fn']} of the {'prefix' if c['at'] == 'prefix' else 'directory pre/sub'} "
+                    f"fails with {c['errno']}: {r['detail']} -- a failed listing reads as a short one (the collector takes an empty marker "
+                    f"listing as 'no transaction in flight')")
+            hits.append({"key": f"listing-failure-reads-short:{c['fn']}:{c['at']}:{c['errno']}", "what": what, "case": c})
+    if only is not None:
+        return hits
+    for h in hits:
+        ctx.violation(h["key"], h["what"], {"listing": h["case"]})
+    try:
+        vals = coqbuild.coq_eval(["DS.Gen.GenLocalList", "DS.Model.LocalList"], [listing_expr(c) for c in cases])
+    except RuntimeError as e:
+        ctx.proof_problems.append("model evaluation failed (local listing): " + str(e)[:400])
+        return hits
+    bad = []
+    for c, r, v in zip(cases, res, vals):
+        ctx.count(1, ("listing", c["fn"], c["at"], c["errno"]))
+        # a sub-directory that is "not there" for the walk is skipped: the model says short, the real listing lacks its files
+        if int(v) != r["outcome"]:
+            bad.append({"case": c, "code": r["outcome"], "model": int(v), "detail": r["detail"]})
+    ctx.correspondence("local_listing", len(cases), bad)
+    return hits
+
+
 def run(ctx) -> None:
     import logging
     logging.disable(logging.CRITICAL)
     ctx.rule = ("one evaluation = one real collection with one fault plan (a fault at one storage call: 4 kinds, or the stream failing "
-                "part-way; thorough: pairs) or one damaged reachable file (6 whole-file classes; single-byte flips and truncations at "
+                "part-way; an OS-level refusal of the object of one operation; thorough: pairs) or one damaged reachable file (6 whole-file classes; single-byte flips and truncations at "
                 "many offsets; one structured operation -- drop / null / retype / empty / drop-item -- at one key path of the document), judged by "
                 "the independent oracle and compared with the model; distinct by (table, fault kind, call, file role, offset / "
                 "operation and key path)")
     ctx.trusted_base += [
         "translator/gen_norm.py (regenerated path kernel; try/except skeleton of collect / _load_inflight_protection / _marker_targets / _gc_prefix pinned)",
-        "harness: harness/props/c07.py, harness/lib/gcsim.py (fault injection by wrapping the storage backend object; independent reader; frozen clock)",
-        "fault model: FRaise = OSError/FileNotFoundError, FRaiseX = any non-OSError exception, FBad = unusable result; one fault changes one call",
+        "translator/gen_locallist.py (which exception classes LocalStorageBackend.list_files' guard and os.walk onerror handler swallow; "
+        "classification of OS failures into 'not there' = FileNotFoundError / NotADirectoryError and everything else)",
+        "translator/gen_gcmarker.py (per-marker decision kernel of _load_inflight_protection; fail closed on a listing other than storage.list_files, "
+        "a handler narrower than Exception, any other storage operation)",
+        "harness: harness/props/c07.py, harness/lib/gcsim.py (fault injection at the backend's own operations through an instrumented subclass of "
+        "the backend's class; third-party backend = StorageBackend subclass with only the abstract methods; independent reader; frozen clock)",
+        "fault model: FRaise = an exception of the class the readers' Avro attempt catches (OSError incl. FileNotFoundError / PermissionError / "
+        "TimeoutError, ValueError), FRaiseX = any other exception, FBad = unusable result; one fault changes one call",
         "translator/gen_doc.py (reader shapes of _dict_to_metadata / read_manifest(_list)_file; which dataclasses validate); harness/lib/docdamage.py",
         "external validations measured per document and passed to the model as the parameter `ext`: Schema(...) on the items of `schemas`; "
         "the int()-keyed statistics maps of a manifest entry",
@@ -1242,14 +1411,22 @@ def run(ctx) -> None:
         "pointer plane: `same` (the dict comparison of the two TableMetadata objects) distinguishes documents with different snapshot lists; a "
         "pointer that answers 'absent' at both reads is a lost pointer for the library (scan result = the table): C07_pointer_run_safe_refuted",
     ]
-    ctx.proofs(THEOREMS, gen_files=["GenNorm.v", "GenDoc.v"])
+    ctx.proofs(THEOREMS, gen_files=["GenNorm.v", "GenDoc.v", "GenGCMarker.v", "GenLocalList.v"])
     ctx.allow_axioms([])
+    run_listing(ctx)
     run_campaign(ctx)
 
 
 def replay(ctx, payload) -> int:
     case = payload.get("case", {})
     spec = case.get("spec")
+    if case.get("listing"):
+        hits = run_listing(ctx, case["listing"])
+        for v in hits:
+            print("replay: STILL FAILS", v["key"], "-", v["what"])
+        if not hits:
+            print("replay: passes now")
+        return 1 if hits else 0
     if not spec:
         print("replay: payload names a broken proof / correspondence; re-run ./bin/check C07 thorough")
         return 2
